@@ -231,11 +231,10 @@ example : (sortDesc ([0, 2, 0, 5, 1].filter (· ≠ 0))).length = 3 ∧ (sortDes
 divisions are guarded: the result exists, is non-negative and at most `1.1·len` -/
 theorem count_top_weighted_strains_guards (ex : Rat → Rat) (hex : ∀ x, 0 ≤ ex x) (strains : List Rat) (dv : Rat) :
     ∃ r, countTopWeightedStrains ex strains dv = some r ∧ 0 ≤ r ∧ r ≤ 11 / 10 * (strains.length : Rat) := by
-  unfold countTopWeightedStrains
+  rw [countTop_unfold]
   by_cases he : strains.isEmpty = true
   · rw [if_pos he]; exact ⟨0, rfl, le_refl _, by positivity⟩
   · rw [if_neg he]
-    simp only
     by_cases hz : floatEq (dv / 10) 0 = true
     · rw [if_pos hz]
       refine ⟨_, rfl, by positivity, ?_⟩
@@ -243,13 +242,16 @@ theorem count_top_weighted_strains_guards (ex : Rat → Rat) (hex : ∀ x, 0 ≤
       linarith
     · rw [if_neg hz]
       have hne : dv / 10 ≠ 0 := floatEq_false_ne_zero (by simpa using hz)
-      apply sumOpt_map_bounds
+      have key := sumOptL_map_bounds (fun s =>
+        (cdiv s (dv / 10)).bind fun r => cdiv (11 / 10) (1 + ex (-10 * (r - 22 / 25)))) (11 / 10) strains 0 ?_
+      · obtain ⟨r, hr, h0, h1⟩ := key
+        exact ⟨r, hr, h0, by linarith⟩
       intro s _
       have h1 : cdiv s (dv / 10) = some (s / (dv / 10)) := by unfold cdiv; rw [if_neg hne]
       have hden : (0 : Rat) < 1 + ex (-10 * (s / (dv / 10) - 22 / 25)) := by
         have := hex (-10 * (s / (dv / 10) - 22 / 25)); linarith
       refine ⟨11 / 10 / (1 + ex (-10 * (s / (dv / 10) - 22 / 25))), ?_, by positivity, ?_⟩
-      · rw [h1]; simp only; unfold cdiv; rw [if_neg hden.ne']
+      · rw [h1]; simp only [Option.bind_some]; unfold cdiv; rw [if_neg hden.ne']
       · rw [div_le_iff₀ hden]
         have := hex (-10 * (s / (dv / 10) - 22 / 25))
         nlinarith
@@ -257,7 +259,7 @@ theorem count_top_weighted_strains_guards (ex : Rat → Rat) (hex : ∀ x, 0 ≤
 /-- the guard is `|dv/10| ≤ 2⁻⁵²`, not `dv = 0`: it returns the strain count -/
 theorem count_top_weighted_strains_eps_branch (ex : Rat → Rat) (s : Rat) (ss : List Rat) (dv : Rat)
     (h : |dv| ≤ 10 * f64Eps) : countTopWeightedStrains ex (s :: ss) dv = some ((ss.length + 1 : Nat) : Rat) := by
-  unfold countTopWeightedStrains
+  rw [countTop_unfold]
   have hz : floatEq (dv / 10) 0 = true := by
     unfold floatEq
     rw [decide_eq_true_iff, qabs_eq_abs, sub_zero, abs_div]
